@@ -23,7 +23,8 @@
      res_flux = flux_of - exact, res_bp = facep_of - lin (fcen f);  e0..e3 = fields 1, x, y, z *)
 From Coq Require Import List ZArith Bool Arith Lia Reals Lra.
 Import ListNotations.
-From PP Require Import Model.C11 Model.C13 Proofs.C11 Proofs.C11_inv.
+From PP Require Import Model.C11 Model.C13 Proofs.C11 Proofs.C11_inv Proofs.C11_dyadic.
+From Coq Require Import QArith Qabs.
 Local Open Scope R_scope.
 
 (* For ANY interaction region (any dimension d, any number m of sub-cells, any list of
@@ -168,6 +169,21 @@ Example C11_nonvacuous_approx_inverse :
   (1/2 < 1) /\
   forall i, (i < 2)%nat -> sumn R RO 2 (fun j => Rabs (prodBA 2 exA2 exB2 i j - idn i j)) <= 1/2.
 Proof. exact example_approx_inverse. Qed.
+
+(* The arithmetic the certificates are executed with is exact: every binary64 value is a
+   pair (mantissa, exponent); the value map dy : dyad -> Q commutes with the executed ring
+   operations DO = (dadd, dsub, dmul, dopp, (0,0), (1,0)) and with the absolute value used in
+   the bands.  (Transfer of the operations only; the comparison dleb and the transfer of the
+   whole model functions to R are not proved.) *)
+Theorem C11_dyadic_exact :
+  ((forall a b, dy (dadd a b) == dy a + dy b) /\
+   (forall a b, dy (dmul a b) == dy a * dy b) /\
+   (forall a, dy (dopp a) == - dy a) /\
+   (forall a b, dy (dsub a b) == dy a - dy b) /\
+   (forall a, dy (dabs a) == Qabs (dy a)) /\
+   dy (o0 DO) == 0 /\ dy (o1 DO) == 1)%Q.
+Proof. exact dyadic_exact. Qed.
+Print Assumptions C11_dyadic_exact.
 
 (* Non-vacuity (A): a concrete 2-D boundary interaction region (two sub-cells, interior,
    Dirichlet and Neumann sub-face, K = [[2,1],[1,3]], p = 3 + x - 2y) with an explicit left
